@@ -173,7 +173,48 @@ fn check_state(b: &MessageBuilder, model: &Model, creds: &Creds, step: &str) -> 
             v.err().map(|e| refattrs::err_name(&e))
         );
     }
+    // the other way of serialising the same state: into a caller's buffer that has been used before.
+    // Whether the two ways agree byte for byte is C12's business; what C11 demands of either is
+    // that the parser accepts it with valid integrity and fingerprint.
+    for fill in [0xA5u8, 0xff] {
+        let mut dest = vec![fill; built.len() + 8];
+        let n = guard(|| b.write_into(&mut dest))
+            .map_err(|p| Fail::new("c11-panic", format!("{}: write_into panicked: {}", step, p)))?
+            .map_err(|e| Fail::new("c11-state", format!("{}: write_into refuses a buffer of byte_len() + 8 bytes: {:?}", step, e)))?;
+        if n > dest.len() || dest[..n] == built[..] {
+            continue;
+        }
+        let written = &dest[..n];
+        let m2 = Message::from_bytes(written).map_err(|e| {
+            Fail::new(
+                "c11-state",
+                format!(
+                    "{}: the parser refuses what write_into serialised into a used buffer (filled with {:#04x}): {}; first difference to build() at byte {}",
+                    step,
+                    fill,
+                    refattrs::err_name(&e),
+                    first_diff(written, &built)
+                ),
+            )
+        })?;
+        if model.mi || model.sha256 {
+            let v = guard(|| m2.validate_integrity(&creds.to_lib())).map_err(|p| Fail::new("c11-panic", p))?;
+            ensure!(
+                v.is_ok(),
+                "c11-integrity",
+                "{}: validate_integrity fails on what write_into serialised into a used buffer (filled with {:#04x}): {:?}; first difference to build() at byte {}",
+                step,
+                fill,
+                v.err().map(|e| refattrs::err_name(&e)),
+                first_diff(written, &built)
+            );
+        }
+    }
     Ok(())
+}
+
+fn first_diff(a: &[u8], b: &[u8]) -> usize {
+    a.iter().zip(b.iter()).position(|(x, y)| x != y).unwrap_or(a.len().min(b.len()))
 }
 
 fn test(c: &Case, st: &mut Stats) -> TestResult {
